@@ -209,6 +209,8 @@ where
     let (tag, old_range, new_range) = op.as_tag_tuple();
 
     if let DiffTag::Equal | DiffTag::Insert | DiffTag::Delete = tag {
+        #[cfg(similar_verif)]
+        crate::verif::hit(20);
         return Box::new(diff.iter_changes(op).map(|x| x.into())) as Box<dyn Iterator<Item = _>>;
     }
 
@@ -218,6 +220,8 @@ where
     let new_slices = &diff.new_slices()[new_range];
 
     if upper_seq_ratio(old_slices, new_slices) < MIN_RATIO {
+        #[cfg(similar_verif)]
+        crate::verif::hit(21);
         return Box::new(diff.iter_changes(op).map(|x| x.into())) as Box<dyn Iterator<Item = _>>;
     }
 
@@ -234,9 +238,13 @@ where
     );
 
     if get_diff_ratio(&ops, old_lookup.len(), new_lookup.len()) < MIN_RATIO {
+        #[cfg(similar_verif)]
+        crate::verif::hit(22);
         return Box::new(diff.iter_changes(op).map(|x| x.into())) as Box<dyn Iterator<Item = _>>;
     }
 
+    #[cfg(similar_verif)]
+    crate::verif::hit(23);
     let mut old_values = Vec::<Vec<_>>::new();
     let mut new_values = Vec::<Vec<_>>::new();
 
